@@ -50,7 +50,42 @@ func (in *Interp) inRepo(fn *ssa.Function) bool {
 			return fn.Blocks != nil
 		}
 	}
+	if p.Pkg.Path() == hdf5Pkg {
+		return true // the in-memory model of the HDF5 library is executed like repository code
+	}
 	return strings.HasPrefix(p.Pkg.Path(), in.repoPrefix)
+}
+
+const hdf5Pkg = "gonum.org/v1/hdf5"
+
+var hdf5WriteOps = map[string]bool{"Write": true, "WriteSubset": true, "CreateDataset": true, "CreateDatasetWith": true, "CreateGroup": true, "CreateFile": true}
+
+// lockCheck: every call from the repository into the (non-thread-safe) HDF5 library must be made
+// with the package lock held, write operations with the write lock.
+func (in *Interp) lockCheck(fn *ssa.Function, fr *Frame) {
+	if fn.Pkg == nil || fn.Pkg.Pkg.Path() != hdf5Pkg || fr == nil || fr.fn.Pkg == nil || fr.fn.Pkg.Pkg.Path() == hdf5Pkg {
+		return
+	}
+	if fn.Name() == "DisplayErrors" || fn.Name() == "Reset" || fn.Name() == "Exists" || fn.Name() == "init" || strings.HasSuffix(fr.fn.Pkg.Pkg.Path(), "zzverif/vsym") || in.harnessFn[fr.fn] || strings.HasPrefix(fr.fn.Name(), "H_") {
+		return
+	}
+	if !in.repoFrame(fr) {
+		return
+	}
+	held, write := false, false
+	for _, st := range in.lockState {
+		if st != 0 {
+			held = true
+		}
+		if st == -1 {
+			write = true
+		}
+	}
+	if !held {
+		in.obligation("hdf5-call-under-lock:"+fn.Name()+":"+shortSite(in.site(in.cur)), "implicit", in.ts.False())
+	} else if hdf5WriteOps[fn.Name()] && !write {
+		in.obligation("hdf5-write-under-write-lock:"+fn.Name()+":"+shortSite(in.site(in.cur)), "implicit", in.ts.False())
+	}
 }
 
 func (in *Interp) invoke(fnv Value, args []Value, c *ssa.CallCommon, fr *Frame) []Value {
@@ -83,10 +118,15 @@ func (in *Interp) invoke(fnv Value, args []Value, c *ssa.CallCommon, fr *Frame) 
 		if !in.inRepo(fn) {
 			return nil
 		}
+		if in.initDone[fn.Pkg] {
+			return nil
+		}
+		in.initDone[fn.Pkg] = true
 	}
 	if !in.inRepo(fn) || len(fn.Blocks) == 0 {
 		return in.intrinsic(name, fn, args)
 	}
+	in.lockCheck(fn, fr)
 	return in.callFunction(fn, args, cl.bind)
 }
 
@@ -95,7 +135,7 @@ func (in *Interp) ensureInit(p *ssa.Package) {
 		return
 	}
 	in.initDone[p] = true
-	if !strings.HasPrefix(p.Pkg.Path(), in.repoPrefix) {
+	if !strings.HasPrefix(p.Pkg.Path(), in.repoPrefix) && p.Pkg.Path() != hdf5Pkg {
 		return
 	}
 	if in.noInit {
@@ -439,6 +479,32 @@ func (in *Interp) intrinsic(name string, fn *ssa.Function, args []Value) []Value
 		in.stash["json-response"] = args[1]
 		in.stashCount["json-response"]++
 		return []Value{&IfaceV{}}
+	case "reflect.TypeOf":
+		iv := args[0].(*IfaceV)
+		ts := "<nil>"
+		if iv.typ != nil {
+			ts = iv.typ.String()
+		}
+		return []Value{&IfaceV{typ: reflectTypeType, val: StrV(ts)}}
+	case "os.Stat":
+		// file system = the HDF5 model's file table
+		exists := false
+		for _, p := range in.prog.AllPackages() {
+			if p.Pkg.Path() == hdf5Pkg {
+				if f := p.Func("Exists"); f != nil {
+					r := in.callFunction(f, []Value{args[0]}, nil)
+					exists = r[0].(*Term).IsTrue()
+				}
+			}
+		}
+		if exists {
+			return []Value{&IfaceV{}, &IfaceV{}}
+		}
+		o := in.newObject(types.Typ[types.String], 1, "error")
+		o.slots[0] = StrV("file does not exist")
+		return []Value{&IfaceV{}, &IfaceV{typ: errorStringType, val: &PtrV{obj: o}}}
+	case "os.IsNotExist":
+		return []Value{in.ts.Bool(args[0].(*IfaceV).typ != nil)}
 	case "errors.New":
 		o := in.newObject(types.Typ[types.String], 1, "error")
 		o.slots[0] = args[0]
@@ -471,6 +537,7 @@ func (in *Interp) intrinsic(name string, fn *ssa.Function, args []Value) []Value
 }
 
 var errorStringType types.Type // set by the driver: *errors.errorString
+var reflectTypeType types.Type = types.Typ[types.String]
 
 func (in *Interp) sprint(name string, args []Value) Value {
 	// formatting is environment: concrete operands are rendered, symbolic ones opaque.
@@ -560,7 +627,10 @@ func (in *Interp) sprint(name string, args []Value) Value {
 }
 
 func (in *Interp) stringsCall(name string, args []Value) []Value {
-	s0 := string(args[0].(StrV))
+	s0 := ""
+	if sv, ok := args[0].(StrV); ok {
+		s0 = string(sv)
+	}
 	switch name {
 	case "strings.Split":
 		parts := strings.Split(s0, string(args[1].(StrV)))
